@@ -43,6 +43,7 @@ type GenCfg struct {
 	Bulk        int  // >0: bulk-load programs (ascending keys, Bulk adds per transaction) instead of random ones
 	ClearL2     int  // seq mode: percentage of transactions preceded by a full clear of the L2 cache (in-memory L2)
 	Neighbour   bool // programs whose transactions work on adjacent keys (interior item and its successor / predecessor)
+	Tide        bool // every third program lets one store's count rise and fall across 10 and 100 (digit width of the persisted count changes both ways)
 }
 
 var writeOps = []string{"Add", "Add", "AddIfNotExist", "Update", "Upsert", "Upsert", "Remove", "Remove"}
@@ -55,6 +56,9 @@ func GenProgram(r *rand.Rand, c GenCfg, id int) Program {
 	}
 	if c.Neighbour && id%2 == 0 {
 		return genNeighbour(r, c, id)
+	}
+	if c.Tide && id%3 == 0 {
+		return genTide(r, c, id)
 	}
 	var p Program
 	ns := 1 + r.Intn(c.MaxStores)
@@ -167,6 +171,46 @@ func genBulk(r *rand.Rand, c GenCfg, id int) Program {
 			}
 		}
 		p.Txns = append(p.Txns, t)
+	}
+	p.Txns = append(p.Txns, TxnSpec{Mode: "r", Open: []int{0}, Ops: []OpSpec{{Op: "Count", Store: 0}, {Op: "Scan", Store: 0}}, End: "commit"})
+	return p
+}
+
+// genTide: one store whose item count goes 12 -> 9 -> 10 -> 0 -> 100+x -> 99 -> 100 -> 99 -> 9, one committed transaction
+// per step: the count persisted in the store's metadata gains and loses decimal digits in both directions.
+func genTide(r *rand.Rand, c GenCfg, id int) Program {
+	var p Program
+	o := sopenv.StoreOpts{Name: fmt.Sprintf("%s%d_s0", c.Prefix, id), Slot: c.Slots[r.Intn(len(c.Slots))], Unique: true,
+		Placement: c.Placements[r.Intn(len(c.Placements))], Balancing: r.Intn(3) == 0}
+	if c.Adversarial {
+		o.Name = advNames[id%len(advNames)]
+		o.Desc = advDescs[r.Intn(len(advDescs))]
+	}
+	p.Stores = []sopenv.StoreOpts{o}
+	present := map[int]bool{}
+	vn := 0
+	step := func(target int) {
+		t := TxnSpec{Mode: "w", End: "commit", Open: []int{0}}
+		if len(p.Txns) == 0 {
+			t.Open, t.New = nil, []int{0}
+		}
+		for k := 1; len(present) < target; k++ {
+			if !present[k] {
+				present[k] = true
+				vn++
+				t.Ops = append(t.Ops, OpSpec{Op: "Add", Store: 0, K: k, V: fmt.Sprintf("w%d.%d", id, vn)})
+			}
+		}
+		for k := 1; len(present) > target; k++ {
+			if present[k] {
+				delete(present, k)
+				t.Ops = append(t.Ops, OpSpec{Op: "Remove", Store: 0, K: k})
+			}
+		}
+		p.Txns = append(p.Txns, t)
+	}
+	for _, n := range []int{12, 9, 10, 0, 100 + r.Intn(4), 99, 100, 99, 9} {
+		step(n)
 	}
 	p.Txns = append(p.Txns, TxnSpec{Mode: "r", Open: []int{0}, Ops: []OpSpec{{Op: "Count", Store: 0}, {Op: "Scan", Store: 0}}, End: "commit"})
 	return p
